@@ -83,6 +83,7 @@ def draw_config(rng, wl, tier):
             cfg["dur_scale"] = T * rng.choice([0.01, 0.01, 0.3, 3.0])
             if rng.random() < 0.3:
                 cfg["faults"].append("F3")
+    cfg["in_child"] = rng.random() < 0.1
     return cfg
 
 
